@@ -539,7 +539,7 @@ CONTRACTS.update({
         modifies=["self.graph.g_edges[]", "flatten_info[tensor.root_name()][]"],
         abstract_loops={0: dict(modifies=["flatten_info[tensor.root_name()][]"],
                                 why="applies the flattenings that became available (tensor state only; no edge is added)")},
-        ensures_env="exit",
+        ensures_env="exit", caller_ensures=["nothing_removed"],
         ensures=[("rewrap_then_partition",
                   "(fiber_node, FromFiberNode(root, rank)) in self.graph.g_edges and "
                   "(FromFiberNode(root, rank), PartNode(root, (rank,))) in self.graph.g_edges and "
@@ -598,6 +598,7 @@ CONTRACTS.update({
 # The first loop (dynamic partitionings hooked up through __connect_dyn_part, which is under its own contract) is
 # abstracted: the frame language cannot say "the lists stored in flatten_info", so its effect is modelled as an arbitrary
 # change of the edge set only (flatten_info is not read again in this function).
+_MONO = "all(e in self.graph.g_edges for e in old(self.graph.g_edges))"
 _FB = "all((g_in[j], LoopNode(g_r)) in self.graph.g_edges and isinstance(g_in[j], FiberNode) for j in range(len(g_in)))"
 _PF = ("len(g_pf) == len(g_pn) and all((g_pf[j], g_pn[j]) in self.graph.g_edges and isinstance(g_pf[j], FiberNode) and "
        "isinstance(g_pn[j], GetPayloadNode) for j in range(len(g_pn)))")
@@ -621,14 +622,14 @@ CONTRACTS.update({
     "IterationGraphF.pop_discord": dict(params=["self"], returns="List[Tuple[Tuple[str, ...], TensorF]]", assumed=True, modifies=[]),
     "FlowGraph.__build_fiber_nodes": dict(
         kinds={"iter_graph": "IterationGraphF", "flatten_info": "Dict[str, List[Any]]"},
-        modifies=["self.graph.g_edges[]", "self.iter_map[]"],
+        # (the tensors' names are keys of flatten_info, and the list of tensors is none of the lists flatten_info holds: facts
+        #  about the caller, FlowGraph.__build, which is not under contract - listed as unchecked preconditions)
+        requires=["all(t.root_name() in flatten_info for t in self.program.get_equation().get_tensors())",
+                  "all(not same_ref(flatten_info[k], self.program.get_equation().get_tensors()) for k in flatten_info)"],
+        modifies=["self.graph.g_edges[]", "self.iter_map[]", "flatten_info[*][]"],
         raises={"ValueError": None, "AssertionError": None},
         local_kinds={"self.iter_map[rank] =": "List[str]", "g_pr": "List[Tuple[str, ...]]", "g_pt": "List[TensorF]", "g_t1": "List[TensorF]", "g_t2": "List[TensorF]"},
         abstract_stmts={"self.iter_map[rank] = ": "the names of the non-output tensors co-iterated at this rank (filtered comprehension)"},
-        abstract_loops={0: dict(modifies=["self.graph.g_edges[]"],
-                                why="hooks up dynamic partitionings through __connect_dyn_part (under its own contract); "
-                                    "modelled as an arbitrary change of the edge set - the lists in flatten_info that it "
-                                    "also rewrites are not read again here and are assumed not to alias IterationGraph's lists")},
         ghost_entry="g_in = []\ng_out = []\ng_r = ''\ng_pf = []\ng_pn = []\ng_qf = []\ng_qn = []\ng_pt = []\ng_pr = []\ng_t1 = []\ng_t2 = []\n",
         ghost_after={
             "if rank is None": "g_r = rank\n",
@@ -644,27 +645,29 @@ CONTRACTS.update({
             "self.graph.add_edge(get_payload_node, FiberNode(tensor.fiber_name()))":
                 "g_qn = g_qn + [_arg0]\ng_qf = g_qf + [_arg1]\n",
         },
-        ensures_env="exit",
+        ensures_env="exit", caller_ensures=["nothing_removed"],
         ensures=[("fiber_before_loop", _FB + " and len(g_in) == len(g_t1)"), ("loop_before_new_fiber", _LN + " and len(g_out) == len(g_t2)"),
                  ("fiber_before_its_discordant_payload_access", _PF + " and len(g_pn) == len(d3)"),
                  ("every_rank_of_a_discordant_access_has_its_loop_before_the_payload_access", _LR % "len(g_pn)"),
-                 ("payload_access_before_the_fiber_it_yields", _QF + " and len(g_qn) == len(d5)")],
+                 ("payload_access_before_the_fiber_it_yields", _QF + " and len(g_qn) == len(d5)"),
+                 ("nothing_removed", _MONO)],
         loops={
+            0: dict(idx="k0", modifies=["self.graph.g_edges[]", "flatten_info[*][]"], inv=[("mono", _MONO)]),
             1: dict(idx="k1", enum="c1", modifies=["self.graph.g_edges[]"], ghost_vars=["g_in"],
-                    inv=[("rank1", "g_r == rank and len(g_in) == k1 and same_ref(c1, g_t1)"), ("fiber_before_loop", _FB)]),
+                    inv=[("mono", _MONO), ("rank1", "g_r == rank and len(g_in) == k1 and same_ref(c1, g_t1)"), ("fiber_before_loop", _FB)]),
             2: dict(idx="k2", enum="c2", modifies=["self.graph.g_edges[]"], ghost_vars=["g_out"],
-                    inv=[("rank2", "g_r == rank and len(g_out) == k2 and len(g_in) == len(g_t1) and same_ref(c2, g_t2)"), ("fiber_before_loop", _FB), ("loop_before_new_fiber", _LN)]),
+                    inv=[("mono", _MONO), ("rank2", "g_r == rank and len(g_out) == k2 and len(g_in) == len(g_t1) and same_ref(c2, g_t2)"), ("fiber_before_loop", _FB), ("loop_before_new_fiber", _LN)]),
             3: dict(idx="k3", modifies=["self.graph.g_edges[]"], ghost_vars=["g_pf", "g_pn", "g_pt", "g_pr"],
                     enum="d3",
-                    inv=[("counts", "len(g_in) == len(g_t1) and len(g_out) == len(g_t2)"), ("fiber_before_loop", _FB), ("loop_before_new_fiber", _LN), ("payload3", _PF + " and len(g_pn) == k3"), ("ranks3", _LR % "k3")]),
+                    inv=[("mono", _MONO), ("counts", "len(g_in) == len(g_t1) and len(g_out) == len(g_t2)"), ("fiber_before_loop", _FB), ("loop_before_new_fiber", _LN), ("payload3", _PF + " and len(g_pn) == k3"), ("ranks3", _LR % "k3")]),
             4: dict(idx="k4", modifies=["self.graph.g_edges[]"],
-                    inv=[("counts", "len(g_in) == len(g_t1) and len(g_out) == len(g_t2)"), ("fiber_before_loop", _FB), ("loop_before_new_fiber", _LN), ("p4len", "len(g_pf) == len(g_pn) and len(g_pn) == k3 + 1 and same_ref(g_pt[k3], tensor) and g_pr[k3] == ranks and g_pn[k3] == get_payload_node"),
+                    inv=[("mono", _MONO), ("counts", "len(g_in) == len(g_t1) and len(g_out) == len(g_t2)"), ("fiber_before_loop", _FB), ("loop_before_new_fiber", _LN), ("p4len", "len(g_pf) == len(g_pn) and len(g_pn) == k3 + 1 and same_ref(g_pt[k3], tensor) and g_pr[k3] == ranks and g_pn[k3] == get_payload_node"),
                          ("ranks4", _LR % "k3"),
                          ("ranks4cur", "all((LoopNode(part.get_final_rank_id(tensor.get_init_ranks(), ranks[i])), get_payload_node) in self.graph.g_edges for i in range(k4))"),
                          ("p4edge", "all((g_pf[j], g_pn[j]) in self.graph.g_edges for j in range(len(g_pn)))"),
                          ("p4ty", "all(isinstance(g_pf[j], FiberNode) and isinstance(g_pn[j], GetPayloadNode) for j in range(len(g_pn)))")]),
             5: dict(idx="k5", enum="d5", modifies=["self.graph.g_edges[]"], ghost_vars=["g_qf", "g_qn"],
-                    inv=[("counts", "len(g_in) == len(g_t1) and len(g_out) == len(g_t2)"), ("fiber_before_loop", _FB), ("loop_before_new_fiber", _LN), ("payload5", _PF + " and len(g_pn) == len(d3)"), ("ranks5", _LR % "len(g_pn)"), ("yield5", _QF + " and len(g_qn) == k5")]),
+                    inv=[("mono", _MONO), ("counts", "len(g_in) == len(g_t1) and len(g_out) == len(g_t2)"), ("fiber_before_loop", _FB), ("loop_before_new_fiber", _LN), ("payload5", _PF + " and len(g_pn) == len(d3)"), ("ranks5", _LR % "len(g_pn)"), ("yield5", _QF + " and len(g_qn) == k5")]),
         },
     ),
 })
